@@ -23,7 +23,7 @@ EXTENDS Integers, Sequences, FiniteSets, TLC, SequencesExt, Json, WireBase
 
 CONSTANTS Tier,       \* "quick" | "thorough" (both exported) | "deep" | "full6" | "full7" | "utf" (model only)
           Export,     \* BOOLEAN: print the exported subset as vectors
-          Fams        \* subset of {"hf", "hb", "rt", "short6", "short7", "cor6", "cor7", "heur6", "comp6", "comp7", "max6", "max7"}: the families of this run
+          Fams        \* subset of {"hf", "hb", "rt", "short6", "short7", "cor6", "cor7", "heur6", "comp6", "comp7", "max6", "max7", "close"}: the families of this run
 
 W6 == INSTANCE Wire
 W7 == INSTANCE Wire7
@@ -430,6 +430,16 @@ InitMax7 ==
     \/ \E cls \in {0, 2} : Mk([k |-> "rd", v |-> 7, hint |-> "none", bytes |-> <<0, 0, 1, 9, 8, 7, 6>> \o BigData(L - 7, cls)])
     \/ Mk([k |-> "rd", v |-> 7, hint |-> "none", bytes |-> <<16, 0, 1, 9, 8, 7, 6>> \o Stream(BigData(L - 7, 0))])
 
+\* close reasons at every length around the limit of 127 bytes, NUL-terminated / unterminated / with
+\* trailing data / with a token behind, in the accept -> write -> re-read path; both versions, every hint
+ReasonLens == T3({0, 1, 126, 127, 128}, {0, 1, 2, 3, 4, 125, 126, 127, 128, 129, 200}, {0, 1, 2, 3, 4, 125, 126, 127, 128, 129, 200})
+ReasonBytes(n) == [j \in 1..n |-> 97 + (j % 26)]
+CloseTails == {<<0>>, <<>>, <<0, 120, 121>>, <<0, 1, 2, 3, 4>>}
+InitClose ==
+  \E n \in ReasonLens, tl \in CloseTails :
+    \/ \E h \in Hints : Mk([k |-> "rd", v |-> 6, hint |-> h, bytes |-> <<16, 0, 0, 4>> \o ReasonBytes(n) \o tl])
+    \/ Mk([k |-> "rd", v |-> 7, hint |-> "none", bytes |-> <<4, 0, 0, 9, 8, 7, 6, 4>> \o ReasonBytes(n) \o tl])
+
 ---------------------------------------------------------------------------
 \* the UTF-8 predicate: the code's comment counts 2650112 valid three-byte strings
 Utf8Count(u) ==
@@ -455,6 +465,7 @@ Init ==
                 \/ "comp7" \in Fams /\ InitComp7
                 \/ "max6" \in Fams /\ InitMax6
                 \/ "max7" \in Fams /\ InitMax7
+                \/ "close" \in Fams /\ InitClose
 Next == UNCHANGED vars
 
 \* exported subset: everything except the widest byte sweeps, which are thinned
